@@ -32,6 +32,7 @@ def run(repo, chk, tier):
     mirroring(repo, chk)
     cap_before_evaluation(repo, chk)
     cap_only(repo, chk)
+    cap_writers(repo, chk)
     names(repo, chk)
 
 
@@ -174,6 +175,11 @@ def mirroring(repo, chk):
                 chk.ok('C06.1c', 'tuple-shape', fn.site(n), ast.unparse(aps[0]), 'Constant lists each pair once with literal 0')
     if not okc:
         chk.bad('C06.1c', 'tuple-shape', fn.site(), 'for c1, c2 in combinations: append((c1, c2, 0.0))', 'the Constant heuristic must list each sampled pair once with score 0.0')
+    for n in cl:
+        g = par.get(n)
+        okg = isinstance(g, ast.If) and term_of(fn, g.test, inline=False) == term_of(fn, ast.parse(f"{fn.params[1]}.heuristic == 'Constant'", mode='eval').body, inline=False) and n in g.body
+        chk.expect(okg, 'C06.1d', 'R14', fn.site(g) if isinstance(g, ast.If) else fn.site(n), ast.unparse(g.test) if isinstance(g, ast.If) else '(unguarded)', "the one-row-per-pair zero listing is used exactly for the heuristic 'Constant'",
+                   "the zero-score shortcut must be guarded by exactly `args.heuristic == 'Constant'`: otherwise scoring heuristics emit single, unmirrored rows with score 0")
 
 
 def cap_before_evaluation(repo, chk):
@@ -265,3 +271,23 @@ def cap_only(repo, chk):
     else:
         why = f'the selection `{ast.unparse(v)[:100]}` is not a prefix of length {cap} of the candidate list'
     chk.expect(ok, 'C06.3s', 'R15', fn.site(defs[0]), ast.unparse(defs[0])[:160], 'the evaluated pairs are the requested pairs reduced only by the cap (a prefix of a re-ordering of the candidate list)', why)
+
+
+def cap_writers(repo, chk):
+    """The cap is the configured value: args.combination_number_upper_bound is written nowhere in the package except by the
+    whitelisted 3MR clamp (if cap > MAX_FEATURES_3MR: cap = MAX_FEATURES_3MR)."""
+    sites = []
+    for m in repo.modules.values():
+        for f in m.funcs.values():
+            par = None
+            for n in own_nodes(f.node):
+                if isinstance(n, (ast.Assign, ast.AugAssign)):
+                    for t in (n.targets if isinstance(n, ast.Assign) else [n.target]):
+                        if isinstance(t, ast.Attribute) and t.attr == 'combination_number_upper_bound':
+                            par = par or parents(f.node)
+                            sites.append((f, n, par.get(n)))
+    for f, n, g in sites:
+        ok = f.qualname == 'get_combinations_from_columns' and isinstance(n, ast.Assign) and ast.unparse(n.value) == 'MAX_FEATURES_3MR' and isinstance(g, ast.If) and ast.unparse(g.test).replace(' ', '') == 'args.combination_number_upper_bound>MAX_FEATURES_3MR'
+        chk.expect(ok, 'C06.3w', 'R2', f.site(n), ast.unparse(n), 'whitelisted: 3MR clamp of the cap to MAX_FEATURES_3MR', f'{f.qualname} overwrites args.combination_number_upper_bound (an object shared by all batches of a run): later batches are reduced by something other than the configured cap')
+    if not sites:
+        chk.ok('C06.3w', 'R2', 'outrank', 'no writer of args.combination_number_upper_bound', 'the cap is the configured value')
